@@ -69,9 +69,10 @@ def exhaustive(tier, shard, nshards):
     # the child thread is held before its _init_child() while the parent already uses the worker
     for seq in (['close', 'enqueue'], ['enqueue', 'close', 'enqueue'], ['enqueue', 'enqueue'], ['close', 'close', 'enqueue']):
         for release_at in range(0, len(seq) + 1):
-            idx += 1
-            if idx % nshards == shard:
-                yield {'gated_init': True, 'seq': seq, 'release_at': release_at}
+            for busy in (True, False):
+                idx += 1
+                if idx % nshards == shard:
+                    yield {'gated_init': True, 'seq': seq, 'release_at': release_at, 'busy': busy}
 
 
 class _GatedEndpoint:
@@ -178,10 +179,17 @@ def run_gated_init(case, ctx, out):
         def _init_child(self):
             gate.wait(10)            # the child thread is preempted right before it initialises its side
             super()._init_child()
+    hold = threading.Event()
+
+    def tgt(a, b=None):
+        # an accepted job keeps the worker busy (hence alive) until the whole sequence has been issued, so that only the
+        # "closed" state - not the worker's death - can be what rejects a late enqueue
+        hold.wait(10)
+        return (a, b)
     out.label('gated_init_schedule')
     out.nontrivial = True
     site = 'p_thread:child_held_before_init_child'
-    w = HeldInit(vtargets.echo2, args=['D0', 'D1'])
+    w = HeldInit(tgt if case.get('busy', True) else vtargets.echo2, args=['D0', 'D1'])
     accepted = 0
     closed = False
     try:
@@ -202,6 +210,7 @@ def run_gated_init(case, ctx, out):
                     if not closed:
                         out.viol('enqueue_raised:WorkerClosedError', site, 'enqueue on an open live worker raised WorkerClosedError')
         gate.set()
+        hold.set()
         ok = bounded(w.wait, 20, 10)
         got = list(w.results_iter()) if ok else None
         if ok is not True or w.result != accepted or got is None or len(got) != accepted:
@@ -209,6 +218,7 @@ def run_gated_init(case, ctx, out):
         out.obs = {'seq': case['seq'], 'release_at': case['release_at'], 'accepted': accepted}
     finally:
         gate.set()
+        hold.set()
         try:
             bounded(w.terminate, 10, 1, False)
         except BaseException:
